@@ -1082,8 +1082,9 @@ namespace Dune
       auto& L=A;
       auto& U=A;
 
-      // initialize inverse
-      *this=field_type();
+      // initialize inverse (field_type() would leave SIMD types like
+      // LoopSIMD, whose default constructor does not initialize, undefined)
+      *this=field_type(0);
 
       for(size_type i=0; i<rows(); ++i)
         (*this)[i][i]=1;
